@@ -338,6 +338,20 @@ func init() {
 		"(encoding/binary.bigEndian).Uint64": func(ex *Exec, st *State, cc *ssa.CallCommon, a []Value) []Value {
 			return one(VBV{ex.getBE(st, a[1].(VSlice), 8), false})
 		},
+		"math/big.NewInt": func(ex *Exec, st *State, cc *ssa.CallCommon, a []Value) []Value {
+			return one(VBig{Nil: TFalse, V: SignExt(bigW, a[0].(VBV).T)})
+		},
+		"(*math/big.Int).Cmp": func(ex *Exec, st *State, cc *ssa.CallCommon, a []Value) []Value {
+			x, y := a[0].(VBig), a[1].(VBig)
+			ex.safe(st, "call:big.Int.Cmp(nil)", And(Not(x.Nil), Not(y.Nil)))
+			return one(VBV{Ite(BVSlt(x.V, y.V), BV(64, -1), Ite(Eq(x.V, y.V), BV(64, 0), BV(64, 1))), true})
+		},
+		"(*math/big.Int).Sign": func(ex *Exec, st *State, cc *ssa.CallCommon, a []Value) []Value {
+			x := a[0].(VBig)
+			ex.safe(st, "call:big.Int.Sign(nil)", Not(x.Nil))
+			z := BV(bigW, 0)
+			return one(VBV{Ite(BVSlt(x.V, z), BV(64, -1), Ite(Eq(x.V, z), BV(64, 0), BV(64, 1))), true})
+		},
 		"(*math/big.Int).SetBytes": func(ex *Exec, st *State, cc *ssa.CallCommon, a []Value) []Value {
 			recv := a[0].(VBig)
 			ex.safe(st, "call:big.Int.SetBytes(nil receiver)", Not(recv.Nil))
